@@ -439,6 +439,15 @@ type childResult struct {
 	AllocNotReproducedEx []string `json:"alloc_not_reproduced_examples,omitempty"`
 }
 
+// processCPU is the CPU time (user + system) this process has consumed so far.
+func processCPU() time.Duration {
+	var ru syscall.Rusage
+	if err := syscall.Getrusage(syscall.RUSAGE_SELF, &ru); err != nil {
+		return 0
+	}
+	return time.Duration(ru.Utime.Nano() + ru.Stime.Nano())
+}
+
 func envInt(name string, def int) int {
 	if v, err := strconv.Atoi(os.Getenv(name)); err == nil {
 		return v
@@ -483,22 +492,36 @@ func TestC05Child(t *testing.T) {
 	defer cf.Close()
 
 	// watchdog: a case that does not return within the budget ends the process with status 3
+	// The budget is CPU time of this process (one busy goroutine, GOMAXPROCS 1), not wall
+	// clock: on a loaded machine a decode that needs two CPU seconds can take a minute of wall
+	// time, and only a decode that keeps the CPU busy without returning is a loop. A separate,
+	// much larger wall-clock cap ends a case that got no CPU at all; that exit (status 4) is
+	// reported as inconclusive by the parent, never as a hang.
 	var cur struct {
 		sync.Mutex
 		idx   int
 		since time.Time
+		cpu0  time.Duration
 	}
 	cur.idx = -1
 	go func() {
 		for {
 			time.Sleep(250 * time.Millisecond)
 			cur.Lock()
-			idx, since := cur.idx, cur.since
+			idx, since, cpu0 := cur.idx, cur.since, cur.cpu0
 			cur.Unlock()
-			if idx >= 0 && time.Since(since) > budget {
+			if idx < 0 {
+				continue
+			}
+			if used := processCPU() - cpu0; used > budget {
 				_ = os.WriteFile(casePath+".hang", []byte(strconv.Itoa(idx)), 0o644)
-				fmt.Printf("C05-CHILD-HANG idx=%d\n%s\n", idx, lib.Trunc(lib.Goroutines(), 6000))
+				fmt.Printf("C05-CHILD-HANG idx=%d cpu=%s wall=%s\n%s\n", idx, used, time.Since(since), lib.Trunc(lib.Goroutines(), 6000))
 				os.Exit(3)
+			}
+			if time.Since(since) > 40*budget {
+				_ = os.WriteFile(casePath+".starved", []byte(strconv.Itoa(idx)), 0o644)
+				fmt.Printf("C05-CHILD-STARVED idx=%d cpu=%s wall=%s\n", idx, processCPU()-cpu0, time.Since(since))
+				os.Exit(4)
 			}
 		}
 	}()
@@ -572,7 +595,7 @@ func TestC05Child(t *testing.T) {
 			dec.SetState(tg.row.State)
 
 			cur.Lock()
-			cur.idx, cur.since = idx, time.Now()
+			cur.idx, cur.since, cur.cpu0 = idx, time.Now(), processCPU()
 			cur.Unlock()
 			runtime.ReadMemStats(&m0)
 			t0 := time.Now()
@@ -741,6 +764,7 @@ func TestC05(t *testing.T) {
 		outFile = filepath.Join(dir, tag+".out")
 		_ = os.Remove(resFile)
 		_ = os.Remove(caseFile + ".hang")
+		_ = os.Remove(caseFile + ".starved")
 		cmd := exec.Command(os.Args[0], "-test.run", "^TestC05Child$", "-test.timeout", "0")
 		cmd.Env = append(os.Environ(),
 			"VERIF_C05_CHILD=1", fmt.Sprintf("VERIF_C05_SHARD=%d", shard), fmt.Sprintf("VERIF_C05_SHARDS=%d", shards),
@@ -858,6 +882,14 @@ func TestC05(t *testing.T) {
 				mu.Lock()
 				restarts++
 				mu.Unlock()
+				if _, err := os.Stat(caseFile + ".starved"); err == nil && exit == 4 {
+					// the case got (almost) no CPU within 40x the budget of wall time: the machine
+					// is overloaded; nothing is known about this decode
+					_ = os.Remove(caseFile + ".starved")
+					r.Inconclusive(fmt.Sprintf("case %d (%s, %s) was starved of CPU (wall-clock cap reached with the CPU budget unused)", lc.Idx, lc.Row, lc.Kind))
+					start = lc.Idx + 1
+					continue
+				}
 				if _, err := os.Stat(caseFile + ".hang"); err == nil && exit == 3 {
 					mu.Lock()
 					seen := hangSeen[lc.Type]
@@ -871,6 +903,16 @@ func TestC05(t *testing.T) {
 					}
 					// watchdog: confirm alone, in a fresh process, with 3x the budget
 					res2, _, exit2, out2, _ := runChild(shard, 0, lc.Idx, 3*caseWatchdog, "")
+					if res2 == nil && exit2 == 4 {
+						mu.Lock()
+						hangsUnconfirmed++
+						hangSeen[lc.Type] = 0
+						delete(quarantine, lc.Type)
+						mu.Unlock()
+						r.Inconclusive(fmt.Sprintf("case %d (%s, %s) used its CPU budget in the batch; the confirmation run alone was starved of CPU", lc.Idx, lc.Row, lc.Kind))
+						start = lc.Idx + 1
+						continue
+					}
 					if res2 == nil && exit2 == 3 {
 						addQuarantine(lc.Type)
 						mu.Lock()
@@ -880,7 +922,7 @@ func TestC05(t *testing.T) {
 						if allocating(out2) {
 							kind, how = "decode-alloc:", "was still allocating memory (stack inside the runtime allocator) and had not returned"
 						}
-						r.Violation(kind+lc.Type, fmt.Sprintf("Decode of an in-memory %d-byte payload %s within %s, confirmed alone in a fresh process within %s", lc.PayloadLen, how, caseWatchdog, 3*caseWatchdog),
+						r.Violation(kind+lc.Type, fmt.Sprintf("Decode of an in-memory %d-byte payload %s within %s of CPU time, confirmed alone in a fresh process within %s of CPU time", lc.PayloadLen, how, caseWatchdog, 3*caseWatchdog),
 							map[string]any{"row": lc.Row, "kind": lc.Kind, "idx": lc.Idx, "payload_len": lc.PayloadLen, "payload_hex": lib.Trunc(lc.PayloadHex, 4000), "child_output": out2})
 					} else if res2 == nil {
 						// alone it did not hang but died: that is the crash clause
